@@ -118,7 +118,7 @@ fn validate_weights(weights: &[f64]) -> Result<(), MixtureError> {
             }
         })
         .and_then(|sum| {
-            if (sum - 1.0).abs() > 1E-12 {
+            if !((sum - 1.0).abs() <= 1E-12) {
                 Err(MixtureError::WeightsDoNotSumToOne { sum })
             } else {
                 Ok(())
